@@ -375,6 +375,7 @@ impl Sut for Sys {
         let stable = st.stable;
         let has_n1 = st.has_n1;
         let next_uid = st.next_uid;
+        let prev_latest = *st.versions.keys().last().unwrap();
         let op2 = op.clone();
         let r = vds::run_catch(async {
             let mut ds = open(&path).await?;
@@ -412,11 +413,18 @@ impl Sut for Sys {
                     old.restore().await?;
                 }
             }
+            // every version the op created (an op may commit more than once)
             let d = open(&path).await?;
-            let s = snap(&d).await?;
-            lance::Result::Ok(s)
+            let mut new_snaps = vec![];
+            for v in d.versions().await? {
+                if v.version > prev_latest {
+                    let dv = d.checkout_version(v.version).await?;
+                    new_snaps.push(snap(&dv).await?);
+                }
+            }
+            lance::Result::Ok(new_snaps)
         });
-        let new_snap = match r {
+        let new_snaps = match r {
             Ok(Ok(s)) => s,
             Ok(Err(e)) => {
                 return Step { next: None, outcome: format!("rejected:{}", vds::err_class(&e)), violations: vec![] };
@@ -427,26 +435,30 @@ impl Sut for Sys {
             }
         };
         let mut next = st.clone();
-        let prev_latest = *st.versions.keys().last().unwrap();
         match op {
             Op::Tag => {
                 next.tags.insert(format!("t{prev_latest}"), prev_latest);
             }
             _ => {
-                if new_snap.version <= prev_latest {
-                    self.foreign.lock().unwrap().insert(format!("{} did not create a new version", kind(op)));
+                if new_snaps.is_empty() {
+                    // e.g. compaction with nothing to do: same state
+                    return Step { next: None, outcome: "no-new-version".into(), violations: vec![] };
                 }
-                next.versions.insert(new_snap.version, new_snap.clone());
             }
         }
+        self.bump(&format!("versions_created_by_{}", kind(op)), new_snaps.len() as u64);
+        for s in &new_snaps {
+            next.versions.insert(s.version, s.clone());
+        }
+        let latest_snap = next.versions.values().last().unwrap().clone();
         match op {
             Op::Append => next.next_uid += 2,
             Op::CreateIndex => next.has_index = true,
             Op::AddColumn => next.has_n1 = true,
             Op::Restore => {
                 // the restored version carries whatever v1 had
-                next.has_index = new_snap.indices.iter().any(|i| i.starts_with("k_idx"));
-                next.has_n1 = new_snap.schema.contains("n1");
+                next.has_index = latest_snap.indices.iter().any(|i| i.starts_with("k_idx"));
+                next.has_n1 = latest_snap.schema.contains("n1");
             }
             _ => {}
         }
